@@ -76,6 +76,13 @@ Proof.
 Qed.
 Print Assumptions c36_segments.
 
+(** The predicate evaluated on the implementation's observed tables ([Exec.holds_on])
+    is implied by agreement with the model ([Exec.check_case]), for every case. *)
+From Akita Require Import C36.Exec C36.Proofs4.
+Theorem c36_model_agreement_implies_property : forall c, check_case c = true -> holds_on c = true.
+Proof. exact check_implies_holds. Qed.
+Print Assumptions c36_model_agreement_implies_property.
+
 (** Regression: before the fix a StopTracing without a start recorded [0,now]. *)
 Theorem c36_stop_without_start_old_refuted :
   t_seg (s_db (final_old [OStopTracing 100])) = [seg_row 0 100] /\
